@@ -131,3 +131,78 @@ def follow_alias_check(ctx, n):
             ctx.violation({"kind": "partition_wrong", "dimension": "follow_alias"},
                           "with --follow-links the report is not the set of qualifying content classes of the tree", payload, found_input=True)
         shutil.rmtree(base, ignore_errors=True)
+
+
+def hardlink_fallback_transform_check(ctx, n):
+    """A file with SEVERAL hard-linked paths of which some cannot be processed (a `--no-copy` transform that fails for paths named
+    bad*), a length-changing transform, and another replica of the content under a different inode: the readable path stands for
+    the file (group.rs rehash tries the other paths of the inode), so the class has TWO replicas — reported by the default
+    search with the good path and the copy together, not reported by --unique."""
+    import stat as statmod
+    from .. import core as _core
+    _core.build_fclones()
+    for i in range(n):
+        rng = ctx.rng.fork()
+        base = os.path.realpath(os.path.join(ctx.scratch, "hlfb%d" % i))
+        shutil.rmtree(base, ignore_errors=True)
+        bind = os.path.join(base, "bin")
+        os.makedirs(bind)
+        keep = rng.choice([3, 8, 40])
+        script = os.path.join(bind, "failpath.sh")
+        with open(script, "w") as f:
+            f.write("#!/bin/sh\ncase \"$(basename \"$1\")\" in bad*) exit 1;; esac\nhead -c %d \"$1\"\n" % keep)
+        os.chmod(script, 0o755)
+        top = os.path.join(base, "t")
+        ninodes = 2 + rng.below(7)
+        good, copy, bad = [], [], []
+        for k in range(ninodes):
+            data = bytes([65 + k]) * 2 + treegen.content(rng.next(), 60 + 5 * k)
+            d = os.path.join(top, "d", "k%d" % k)
+            os.makedirs(d)
+            # creation order varies: which path of the inode is tried first is not specified
+            names = rng.shuffle(["good"] + ["bad%d" % j for j in range(1 + rng.below(7))])
+            first = os.path.join(d, names[0])
+            with open(first, "wb") as f:
+                f.write(data)
+            for nm in names[1:]:
+                os.link(first, os.path.join(d, nm))
+            good.append(os.path.join(d, "good"))
+            bad += [os.path.join(d, nm) for nm in names if nm != "good"]
+            e = os.path.join(top, "e")
+            os.makedirs(e, exist_ok=True)
+            cp = os.path.join(e, "copy_k%d" % k)
+            with open(cp, "wb") as f:
+                f.write(data[:keep] + treegen.content(rng.next(), 7 + k))        # equal after the transform, other length on disk
+            copy.append(cp)
+        unique = rng.chance(1, 3)
+        opts = ["--transform", "failpath.sh $IN", "--no-copy"] + (["--unique"] if unique else []) + rng.choice([[], ["--threads", "1"]])
+        env0 = {"FCLONES_VERIF_DISK_KIND": rng.choice(["ssd", "hdd"]), "PATH": bind + ":" + os.environ.get("PATH", "/usr/bin:/bin")}
+        rc, out, err = treegen.fclones(["group", top, "-f", "json"] + opts, cwd=base, env=env0, timeout=120)
+        ctx.count()
+        ctx.distinct(("hlfb", i, ninodes, unique, keep), True)
+        ctx.bump("hardlink_fallback_transform", "unique" if unique else "duplicates")
+        payload = {"scenario": "%d files with hard links named bad* (transform fails for them) + good, and a copy of each under another inode" % ninodes,
+                   "opts": opts, "transform": open(script).read(), "stderr": err.decode("utf-8", "replace")[-400:],
+                   "replay": "cd %s && PATH=%s:$PATH fclones group t %s" % (base, bind, " ".join(opts))}
+        if rc != 0:
+            ctx.violation({"kind": "run_failed", "dimension": "hardlink_fallback"}, "fclones group failed (rc %d)" % rc, payload, found_input=True)
+            continue
+        _, groups = treegen.parse_json_report(out.decode("utf-8"))
+        gl = [sorted(p.decode("utf-8", "surrogateescape") for p in g["files"]) for g in groups]
+        payload["reported"] = gl
+        listed = {p for g in gl for p in g}
+        # (the bad* paths are other names of a file that WAS read - through its good path -: whether they are listed depends on
+        # which path of the inode happened to be tried first; nothing is demanded about them)
+        if unique:
+            wrong = sorted(listed & (set(good) | set(copy)))
+            if wrong:
+                ctx.violation({"kind": "class_reported_but_filtered", "dimension": "hardlink_fallback"},
+                              "--unique lists files that have a second replica (the hard-linked file and its copy): %s" % wrong[:4], payload, found_input=True)
+        else:
+            for g_, c_ in zip(good, copy):
+                if not any(g_ in g and c_ in g for g in gl):
+                    ctx.violation({"kind": "class_dropped", "dimension": "hardlink_fallback"},
+                                  "the class {%s, %s} (2 replicas: a hard-linked file read through its good path, and a copy) is not reported as one group" % (g_, c_),
+                                  payload, found_input=True)
+                    break
+        shutil.rmtree(base, ignore_errors=True)
